@@ -206,7 +206,7 @@ class CallMixin:
                 yield "raise", self.exc(st, "TypeError", "callLater"), st
                 return
             h = ("timer", st.uid())
-            tgt, eff = self._timer_target(args[1], tuple(args[2:]))
+            tgt, eff = self._timer_target(args[1], tuple(args[2:]), st)
             self.emit(st, fx, "ARM", node, handle=h, delay=args[0], target=tgt, args=eff, how="callLater",
                       delaynode=node.args[0] if node.args else None)
             yield "ok", h, st
@@ -310,11 +310,11 @@ class CallMixin:
                 st.heap[(o, fld)] = ("net", recv, fld)
             yield "ok", NONE, st
 
-    def _timer_target(self, tgt, args):
+    def _timer_target(self, tgt, args, st=None):
         """(callable, effective arguments) of a timer callback: functools.partial is unwrapped, and what a closure captured from
         the frame that made it (the free variables its body uses) counts as its arguments."""
         if isinstance(tgt, tuple) and tgt and tgt[0] == "partial":
-            return self._timer_target(tgt[1], tuple(tgt[2]) + tuple(args))
+            return self._timer_target(tgt[1], tuple(tgt[2]) + tuple(args), st)
         if isinstance(tgt, tuple) and tgt and tgt[0] == "closure" and tgt[2] in getattr(self, "_closure_env", {}):
             env, _, fi = self._closure_env[tgt[2]]
             own = set(fi.locals)
@@ -323,6 +323,22 @@ class CallMixin:
                 if isinstance(x, ast.Name) and isinstance(x.ctx, ast.Load) and x.id in env and x.id not in own and x.id not in ("self", fi.name) \
                         and x.id not in free:
                     free.append(x.id)
+            if st is not None:
+                # a captured local that is, when the timer is armed, the value of a field of another captured object (d = Deferred();
+                # request.deferred = d): in the callback it stands for that field
+                al = {}
+                for k in free:
+                    v = env[k]
+                    if not (isinstance(v, tuple) and v and v[0] in ("dfr", "timer", "new")):
+                        continue
+                    for (obj, field), val in st.heap.items():
+                        if val == v:
+                            for o in free:
+                                if o != k and env[o] == obj:
+                                    al[k] = (o, field)
+                if al:
+                    self._closure_alias = getattr(self, "_closure_alias", {})
+                    self._closure_alias.setdefault(fi.qual, {}).update(al)
             return tgt, tuple(args) + tuple(env[k] for k in free)
         return tgt, tuple(args)
 
@@ -373,7 +389,7 @@ class CallMixin:
             return
         if tail[-1] == "callLater" and "reactor" in dotted:
             h = ("timer", st.uid())
-            tgt, eff = self._timer_target(args[1] if len(args) > 1 else NONE, tuple(args[2:]))
+            tgt, eff = self._timer_target(args[1] if len(args) > 1 else NONE, tuple(args[2:]), st)
             self.emit(st, fx, "ARM", node, handle=h, delay=args[0], target=tgt,
                       args=eff, how="reactor.callLater", delaynode=node.args[0] if node.args else None)
             yield "ok", h, st
@@ -499,6 +515,19 @@ class CallMixin:
             return True
         return False
 
+    def _known_nonempty(self, recv, st):
+        if st.facts.get(("truthy", recv)) is True:
+            return True
+        ln = ("call", ("builtin", "len"), (recv,))
+        for k, v in st.facts.items():
+            if isinstance(k, tuple) and k[0] == "cmp" and k[2] == ln and is_const(k[3]) and isinstance(k[3][1], int):
+                op, c = k[1], k[3][1]
+                if v is True and ((op == ">" and c >= 0) or (op == ">=" and c >= 1) or (op == "!=" and c == 0)):
+                    return True
+                if v is False and ((op == "<=" and c >= 0) or (op == "<" and c >= 1) or (op == "==" and c == 0)):
+                    return True
+        return False
+
     def call_registry(self, recv, name, args, st, fx, node):
         reg = recv[1]
         common = dict(reg=reg, addr=recv[2])
@@ -524,6 +553,11 @@ class CallMixin:
                 self.emit(st, fx, "UNREG", node, key=key, how="pop(key)", elem=t, **common)
                 st.hits.discard((reg, key))
             else:
+                if name in ("popleft", "pop") and not self._known_nonempty(recv, st):
+                    # taking from a deque that may be empty: IndexError
+                    s2 = st.fork()
+                    self.emit(s2, fx, "LOOKUP", node, key=None, hit=False, how="%s-empty" % name, **common)
+                    yield "raise", self.exc(s2, "IndexError", NONE), s2
                 self.emit(st, fx, "UNREG", node, key=None, how=name, elem=t, **common)
             self._drop_reg_facts(st, reg)
             yield "ok", t, st
